@@ -275,19 +275,23 @@ func (d *vfSrv) settle() {
 // any specification matches it) and removed so that the bubble can end; one that does not even
 // answer is a hang: the result is written and the test binary stops.
 func (d *vfSrv) teardown() {
-	d.nc.SetReadBufferSize(math.MaxInt)
-	d.st.callsMu.Lock()
-	calls := d.st.calls
-	d.st.calls = nil
-	d.st.callsMu.Unlock()
-	for _, c := range calls {
-		c.exit()
-	}
-	for _, s := range d.strs {
-		if s.call != nil {
-			s.call.exit()
+	release := func() {
+		d.st.callsMu.Lock()
+		calls := d.st.calls
+		d.st.calls = nil
+		d.st.callsMu.Unlock()
+		for _, c := range calls {
+			c.exit()
+		}
+		for _, s := range d.strs {
+			if s.call != nil {
+				s.call.exit()
+			}
 		}
 	}
+	defer release()
+	// the client goes away while handlers may still be running
+	d.nc.SetReadBufferSize(math.MaxInt)
 	d.st.cc.Close()
 	synctest.Wait()
 	time.Sleep(2 * GoAwayTimeout)
@@ -1039,6 +1043,12 @@ func vfSrvHostile(tb testing.TB, env *vfEnv, tn int, rnd *rand.Rand) {
 		send("empty-continuations", pre.Bytes())
 	}
 	quiesce()
+	if rnd.Intn(6) == 0 {
+		// the client vanishes right after its input, handlers still running (teardown checks the serve loop)
+		d.emit(map[string]any{"e": "abrupt"})
+		finished = true
+		return
+	}
 
 	// the input has ended: every handler is told to return, the peer reads again
 	d.st.callsMu.Lock()
